@@ -1,9 +1,16 @@
 """Shared body of the container properties C01-C04."""
 from __future__ import annotations
 
+from .. import cmpshape as M
+from .. import forward as F
 from .. import rules_container as RC
 from .. import tables as T
+from ..effects import Effects, check_deepcopy, check_pure, check_shared_literals
 from ..report import Result
+
+# raw table setters / bulk restore: they replace a table wholesale and are outside the properties' quantifier
+RAW_SETTERS = {"set_adj_dict", "set_edge_list", "set_existing_layers", "populate_from_dict", "__init__"}
+FILTER_METHODS = ("get_edges", "num_edges", "get_weights", "get_incident_edges", "get_neighbors", "get_source_edges", "get_target_edges")
 
 MUTATORS_ATOMIC = (
     "add_node", "add_nodes", "add_edge", "add_edges", "remove_edge", "remove_edges", "remove_node", "remove_nodes",
@@ -11,6 +18,14 @@ MUTATORS_ATOMIC = (
     "set_attr_to_node_metadata", "set_attr_to_edge_metadata", "set_attr_to_hypergraph_metadata",
     "remove_attr_from_node_metadata", "remove_attr_from_edge_metadata",
 )
+
+EXPECTED_MUTATORS = {
+    "add_node", "add_nodes", "add_edge", "add_edges", "add_empty_edge", "remove_edge", "remove_edges", "remove_node",
+    "remove_nodes", "set_weight", "set_node_metadata", "set_edge_metadata", "set_incidence_metadata",
+    "set_hypergraph_metadata", "set_attr_to_node_metadata", "set_attr_to_edge_metadata",
+    "set_attr_to_hypergraph_metadata", "remove_attr_from_node_metadata", "remove_attr_from_edge_metadata", "clear",
+    "set_dataset_metadata", "set_layer_metadata",
+}
 
 KIND_RULES = {
     "K-KEY": "every access to a declared table uses a key of the table's key kind (canonical key / edge id / node)",
@@ -33,6 +48,14 @@ PATH_RULES = {
     "P-SHRINK": "weight / metadata of a record are not read after the record was removed (shrinking remove_node)",
     "P-LOOPVAR": "no loop variable (key component) is used after its loop in remove_node",
     "P-NEIGH": "every return of get_neighbors passes through removal of the queried node",
+    "E-PURE": "query methods (everything that is not a declared mutator) never modify self, directly or through callees / lent references",
+    "E-SHARED": "no single mutable object becomes the value of several table entries (dict.fromkeys(keys, {}), [{}] * n)",
+    "E-FRESHCOPY": "copy() is copy.deepcopy(self)",
+    "M-UPTO": "size filters are `==` on the exact branch and `<=` on the up_to branch",
+    "M-EXCL": "the order/size exclusion guard raises exactly when both are given",
+    "M-NONE": "order / size are tested with `is None`, never by truthiness (0 is a legitimate order)",
+    "F-USE": "a received order / size / up_to parameter is used",
+    "F-FWD": "an order/size filter is forwarded to the callee that applies it, under the right name and unit",
 }
 
 
@@ -50,6 +73,30 @@ def run_container(ctx, prop: str, cls: str) -> Result:
     RC.check_clear(ctx, res, cls, exempt=("_incidences_metadata", "_empty_edges"))
     RC.check_atomic(ctx, res, cls, MUTATORS_ATOMIC)
     RC.check_neighbors(ctx, res, cls)
+    RC.check_record_creation_guarded(ctx, res, cls)
+    # ---- queries are read-only; mutators do not share one mutable object between entries; copy is deep
+    eff = Effects(ctx)
+    mutators, queries = [], []
+    for name, fi in ctx.methods(cls).items():
+        if name in RAW_SETTERS:
+            continue
+        (mutators if name in EXPECTED_MUTATORS else queries).append(name)
+    for name in sorted(queries):
+        check_pure(ctx, eff, res, f"{cls}.{name}", roots=("self",))
+    for name in sorted(mutators):
+        check_shared_literals(ctx, res, f"{cls}.{name}")
+    if "copy" in ctx.methods(cls):
+        check_deepcopy(ctx, res, f"{cls}.copy")
+    # ---- filtered queries: comparison shapes, exclusion guard, None tests, forwarding
+    for name in FILTER_METHODS:
+        if name in ctx.methods(cls):
+            d = f"{cls}.{name}"
+            M.check_upto(ctx, res, d)
+            M.check_exclusion(ctx, res, d)
+            M.check_none_tests(ctx, res, d)
+            F.check_use(ctx, res, d, ("order", "size", "up_to"))
+    wrappers = [f"{cls}.{n}" for n in ctx.methods(cls) if n not in RAW_SETTERS]
+    F.check_forwarding(ctx, res, wrappers)
     res.assumptions += [
         "A1: node labels are not tuples (isinstance(<node>, tuple) folds to False in the canonicalisers)",
         "table kinds of hgxverif/tables.py (frozen from __init__/add_edge/add_node; cross-checked against inference on every run)",
